@@ -132,3 +132,12 @@ Theorem C20_singular_float64_zero_column_partial : forall z a b : vecF,
   (is_zero64 (detF (M a b z)) = true /\ inverseF (M a b z) = None).
 Proof. exact det_zero_column_float. Qed.
 Print Assumptions C20_singular_float64_zero_column_partial.
+
+(* the singular clause on the property's domain, no premise left: for EVERY pair of columns with finite entries
+   of magnitude at most 4, a matrix with two equal columns, or with a zero column, in any position makes
+   Matrix3.Inverse - evaluated in binary64 as the code evaluates it - take its documented panic (None) *)
+Theorem C20_singular_inverse_panics_float64 : forall a b z : vecF, vle4 a -> vle4 b -> zeroV z ->
+  (inverseF (M a a b) = None /\ inverseF (M a b a) = None /\ inverseF (M b a a) = None) /\
+  (inverseF (M z a b) = None /\ inverseF (M a z b) = None /\ inverseF (M a b z) = None).
+Proof. exact (fun a b z Ha Hb Hz => conj (singular_repeated_column_float a b Ha Hb) (singular_zero_column_float z a b Hz Ha Hb)). Qed.
+Print Assumptions C20_singular_inverse_panics_float64.
